@@ -594,8 +594,8 @@ func strictEqualityComparison(x Value, y Value) bool {
 // Export will attempt to convert the value to a Go representation
 // and return it via an interface{} kind.
 //
-// Export returns an error, but it will always be nil. It is present
-// for backwards compatibility.
+// Export returns an error when reading the value runs script code (an accessor
+// property) and that code throws; otherwise the error is nil.
 //
 // If a reasonable conversion is not possible, then the original
 // value is returned.
@@ -608,7 +608,13 @@ func strictEqualityComparison(x Value, y Value) bool {
 //	Array       -> []interface{}
 //	Object      -> map[string]interface{}
 func (v Value) Export() (interface{}, error) {
-	return v.export(), nil
+	var result interface{}
+	// Reading the members of an object can run script code (an accessor), and that
+	// code can throw: report it as the error instead of panicking in the caller.
+	err := catchPanic(func() {
+		result = v.export()
+	})
+	return result, err
 }
 
 func (v Value) export() interface{} {
